@@ -5,16 +5,17 @@ import "fmt"
 // Explorer enumerates executions by depth-first search over decision points with
 // iterative deviation (preemption + environment) bounding.
 type Explorer struct {
-	Bodies func() []func()        // builds fresh thread bodies (fresh instance) per execution
-	Check  func(r Result, id int) // oracle, called once per execution
-	Bound  int                    // maximal total deviation cost (<0: unbounded)
-	Limit  int64                  // stop after this many executions (0: none)
-	Stop   func() bool            // external deadline
-	Execs  int64
-	Capped bool
-	Points int64
-	MaxDev int
-	Error  string
+	Bodies  func() []func()        // builds fresh thread bodies (fresh instance) per execution
+	Check   func(r Result, id int) // oracle, called once per execution
+	Bound   int                    // maximal total deviation cost (<0: unbounded)
+	Limit   int64                  // stop after this many executions (0: none)
+	Stop    func() bool            // external deadline
+	Execs   int64
+	Blocked int64 // executions cut short because every enabled thread was asleep
+	Capped  bool
+	Points  int64
+	MaxDev  int
+	Error   string
 }
 
 func (x *Explorer) Explore() {
@@ -61,5 +62,116 @@ func (x *Explorer) explore(prefix []int) {
 			}
 		}
 		dev += p.Cost
+	}
+}
+
+// frame is one decision point of the depth-first search with sleep sets.
+type frame struct {
+	alts   []Alt
+	env    bool
+	chosen int
+	done   []bool        // alternatives already explored from this state
+	sleep  map[int]OpSig // threads asleep in this state (their pending op)
+}
+
+// ExploreAll enumerates one representative of every Mazurkiewicz trace (all
+// interleavings up to commutation of independent operations) with sleep sets. It is
+// sound for data-race-free code: two operations are independent when they touch
+// different synchronisation objects (or different keys of one sync.Map, or only read).
+// Environment choices are always fully enumerated.
+func (x *Explorer) ExploreAll() {
+	var stack []*frame
+	for {
+		if (x.Limit > 0 && x.Execs >= x.Limit) || (x.Stop != nil && x.Execs%64 == 0 && x.Stop()) {
+			x.Capped = true
+			return
+		}
+		depth := 0
+		chooser := func(i int, alts []Alt, env bool) int {
+			defer func() { depth++ }()
+			if i < len(stack) {
+				f := stack[i]
+				if len(f.alts) != len(alts) {
+					x.Error = fmt.Sprintf("replay divergence at point %d: %d alternatives, recorded %d", i, len(alts), len(f.alts))
+					return -1
+				}
+				return f.chosen
+			}
+			f := &frame{alts: alts, env: env, done: make([]bool, len(alts)), sleep: map[int]OpSig{}}
+			if i > 0 {
+				p := stack[i-1]
+				if !p.env {
+					taken := p.alts[p.chosen]
+					for t, op := range p.sleep {
+						if Independent(op, taken.Op) && t != taken.Thread {
+							f.sleep[t] = op
+						}
+					}
+					for j, a := range p.alts {
+						if p.done[j] && j != p.chosen && a.Thread != taken.Thread && Independent(a.Op, taken.Op) {
+							f.sleep[a.Thread] = a.Op
+						}
+					}
+				} else {
+					for t, op := range p.sleep {
+						f.sleep[t] = op
+					}
+				}
+			}
+			f.chosen = -1
+			for j, a := range alts {
+				if env {
+					f.chosen = j
+					break
+				}
+				if _, asleep := f.sleep[a.Thread]; !asleep {
+					f.chosen = j
+					break
+				}
+			}
+			stack = append(stack, f)
+			if f.chosen < 0 {
+				x.Blocked++
+				return -1 // sleep-set blocked: every enabled thread is asleep, the execution is redundant
+			}
+			return f.chosen
+		}
+		r := RunWith(x.Bodies(), chooser)
+		x.Execs++
+		x.Points += int64(len(r.Points))
+		if x.Error != "" {
+			return
+		}
+		if !r.Abandoned {
+			x.Check(r, int(x.Execs))
+		}
+		// backtrack: find the deepest frame with an alternative that is neither explored nor asleep
+		for len(stack) > 0 {
+			f := stack[len(stack)-1]
+			if f.chosen >= 0 {
+				f.done[f.chosen] = true
+			}
+			next := -1
+			for j, a := range f.alts {
+				if f.done[j] {
+					continue
+				}
+				if !f.env {
+					if _, asleep := f.sleep[a.Thread]; asleep {
+						continue
+					}
+				}
+				next = j
+				break
+			}
+			if next >= 0 {
+				f.chosen = next
+				break
+			}
+			stack = stack[:len(stack)-1]
+		}
+		if len(stack) == 0 {
+			return
+		}
 	}
 }
